@@ -233,6 +233,11 @@ def left_fold_helper_ok(h):
             init_ok = False
             if init_l is not None:
                 d0 = h.single_def(init_l)
+                for _ in range(3):          # `let start = (.., first); .. try_fold(start, ..)`: follow the move to the tuple
+                    if d0 and d0[1] != "term" and d0[2]["k"] == "use" and op_base_(d0[2]["a"]) is not None and "k" not in d0[2]["a"]:
+                        d0 = h.single_def(op_base_(d0[2]["a"]))
+                    else:
+                        break
                 ops0 = d0[2]["ops"] if d0 and d0[1] != "term" and d0[2]["k"] == "agg" else [fc.args[1]]
                 for o in ops0:
                     tr0 = h.trace(op_base_(o)) if op_base_(o) is not None else []
